@@ -39,7 +39,7 @@ RULE = ("1-3 rulesets (>= 1 with a ruleset cgroup pattern out of 8 pattern shape
 
 # "s/w\\x2dq" (a systemd-escaped unit name: it contains a backslash) and "s/w[1]": names are names - the default `cgroup` argument
 # an instance hands to its actions must name that very cgroup, whatever characters it contains
-UNIVERSE = ["s", "t", "s/wa", "s/wb", "s/wc", "s/xd", "s/wfile", "s/wa/sub", "t/wa", "s/w\\x2dq", "s/w[1]{2}"]
+UNIVERSE = ["s", "t", "s/wa", "s/wb", "s/wc", "s/xd", "s/wfile", "s/wa/sub", "t/wa", "s/w\\x2dq", "s/w[1]{2}", "s/wb "]
 KIND = {"s/wfile": "file"}
 PATTERNS = ["s/*", "s/w*", "s/w?", "*/wa", "s/wa", "s/{wa,w*}", "s/{wa,wb}", "*", "s/{w*,*a}"]
 
